@@ -13,7 +13,7 @@ Local Open Scope nat_scope.
    the request channel and on the error channel is a select case next to <-ctx.Done(), the scheduler
    waits for in-flight workers, Listen cancels before it waits.  The theorems below are about the
    LTS instantiated with exactly these guards. *)
-Theorem C10_guards : extracted = mkG true true true true true.
+Theorem C10_guards : extracted = mkG true true true true true true.
 Proof. exact extracted_all_true. Qed.
 
 (* Every state reachable from the start -- any interleaving of the scheduler, the multicast loop,
@@ -33,22 +33,27 @@ Proof. intros s l Hr Hg Hp. exact (path_bounded l s Hp (reach_inv s Hr) Hg). Qed
    send worker can start *)
 Theorem C10_quiet_after_return : forall s, reach s -> all_done s = true ->
   kw s = 0 /\ ke s = 0 /\ stopped s = true /\ L s = Ldone /\
-  forall s', In s' (steps (mkG true true true true true) s) -> kw s' = 0 /\ all_done s' = true.
+  forall s', In s' (steps (mkG true true true true true true) s) -> kw s' = 0 /\ all_done s' = true.
 Proof. intros s Hr Hd. exact (done_quiet s (reach_inv s Hr) Hd). Qed.
 
 (* a failing listener always gets to report its error (which cancels the group) *)
 Theorem C10_listener_reports : forall s e, L s = Lexit1 e \/ (L s = Lexit2 e /\ lcancel s = true) ->
-  steps_L (mkG true true true true true) s ++ steps_I s <> [].
+  steps_L (mkG true true true true true true) s ++ steps_I s <> [].
 Proof. exact failing_listener_reports. Qed.
 
 (* the two repaired defects are reachable deadlocks of the same LTS with the old guards *)
 Theorem C10_legacy_listen_deadlock :
-  exists s, reach_g (mkG true true true true false) s /\ L s = Lexit2 true /\ I s = Iwait /\ gc s = false /\
-            steps_L (mkG true true true true false) s ++ steps_I s = [].
+  exists s, reach_g (mkG true true true true false true) s /\ L s = Lexit2 true /\ I s = Iwait /\ gc s = false /\
+            steps_L (mkG true true true true false true) s ++ steps_I s = [].
 Proof. exact legacy_listen_deadlock. Qed.
 Theorem C10_legacy_send_deadlock :
-  exists s, reach_g (mkG false true true true true) s /\ gc s = true /\ stuck (mkG false true true true true) s.
+  exists s, reach_g (mkG false true true true true true) s /\ gc s = true /\ stuck (mkG false true true true true true) s.
 Proof. exact legacy_send_deadlock. Qed.
+
+Theorem C10_legacy_stop_before_cancel_deadlock :
+  exists s, reach_g (mkG true true true true true false) s /\ gc s = false /\ S s = Sstop true /\ ke s = 1%nat /\
+            steps_S (mkG true true true true true false) s = [] /\ steps_K (mkG true true true true true false) s = [].
+Proof. exact legacy_stop_before_cancel_deadlock. Qed.
 
 (* what a fault leads to: re-established for a link change or a non-permission system call error,
    ended with an error otherwise (the Dialer's classification: part (c)) *)
@@ -85,6 +90,7 @@ Print Assumptions C10_quiet_after_return.
 Print Assumptions C10_listener_reports.
 Print Assumptions C10_legacy_listen_deadlock.
 Print Assumptions C10_legacy_send_deadlock.
+Print Assumptions C10_legacy_stop_before_cancel_deadlock.
 Print Assumptions C10_reaction.
 Print Assumptions C10_rx_retry.
 Print Assumptions C10_rx_exhausted.
